@@ -62,14 +62,14 @@ Definition config_eqb (a b : config) : bool :=
   opt_eqb Z.eqb (cf_picture_bytes a) (cf_picture_bytes b) &&
   opt_eqb matrix_eqb (cf_quantization_matrix a) (cf_quantization_matrix b).
 
-(* model result vs the implementation's observation.  For "Unrecognised row(s)" the message
-   lists a set (unordered): only kind and column name are compared. *)
+(* model result vs the implementation's observation.  The "Unrecognised row(s)" message
+   lists an unordered set and no column name: only the kind is compared. *)
 Definition agree (r : result (list config)) (o : obs) : bool :=
   match r, o with
   | Ok cfgs, OOk cfgs' => list_eqb config_eqb cfgs cfgs'
   | Invalid k f c, OInvalid k' f' c' =>
-      err_kind_eqb k k' && String.eqb c c' &&
-      match k with EUnrecognised => true | _ => String.eqb f f' end
+      err_kind_eqb k k' &&
+      match k with EUnrecognised => true | _ => String.eqb c c' && String.eqb f f' end
   | _, _ => false
   end.
 
